@@ -96,26 +96,85 @@ pub fn drop_case(id: usize, unix: bool, tmpdir: &str) -> String {
     format!("srv id={} kind={} refused_ms={} answered={} path_removed={}", id, if unix { "drop-unix" } else { "drop-tcp" }, refused_ms, if answered { 1 } else { 0 }, path_removed)
 }
 
+/// a UNIX-socket server whose accept loop has already ended (a listener that reports an error:
+/// here a non-blocking one, `accept` fails with WouldBlock) is dropped: the path must still be
+/// removed and connection attempts refused
+pub fn drop_dead_unix_case(id: usize, tmpdir: &str) -> String {
+    let path = format!("{}/srv-dead-{}-{}.sock", tmpdir, std::process::id(), id);
+    let _ = std::fs::remove_file(&path);
+    let l = std::os::unix::net::UnixListener::bind(&path).unwrap();
+    l.set_nonblocking(true).unwrap();
+    let server = Server::from_listener(l, None).unwrap();
+    // the accept error reaches the application, the accept thread is gone
+    let reported = server.recv_timeout(Duration::from_millis(1000)).is_err();
+    std::thread::sleep(Duration::from_millis(30));
+    drop(server);
+    let t0 = Instant::now();
+    let mut r = -1i64;
+    while t0.elapsed() < Duration::from_millis(1500) {
+        if std::os::unix::net::UnixStream::connect(&path).is_err() {
+            r = t0.elapsed().as_millis() as i64;
+            break;
+        }
+        std::thread::sleep(Duration::from_millis(5));
+    }
+    let removed = !std::path::Path::new(&path).exists();
+    let _ = std::fs::remove_file(&path);
+    format!("srv id={} kind=drop-unix-dead refused_ms={} answered=1 path_removed={} reported={}", id, r, if removed { 1 } else { 0 }, if reported { 1 } else { 0 })
+}
+
 /// N keep-alive connections opened at once: each must get its response while all others stay open
 pub fn burst_case(id: usize, n: usize) -> String {
+    burst_case_held(id, n, 0)
+}
+
+/// the same with `held` earlier connections whose (last) request, an upload with a streamed body
+/// on a connection that will not be reused, stays with the application unanswered meanwhile:
+/// connections waiting on their handlers must not hold up the others
+pub fn burst_case_held(id: usize, n: usize, held: usize) -> String {
     let server = std::sync::Arc::new(Server::http("127.0.0.1:0").unwrap());
     let ip = server.server_addr().to_ip().unwrap();
     let s2 = server.clone();
     let app = std::thread::spawn(move || {
         let mut served = 0;
+        let mut kept = vec![];
         while served < n {
             match s2.recv_timeout(Duration::from_millis(2500)) {
                 Ok(Some(rq)) => {
+                    if rq.url() == "/slow" {
+                        kept.push(rq);
+                        continue;
+                    }
                     let _ = rq.respond(Response::from_string("done"));
                     served += 1;
                 }
                 _ => break,
             }
         }
+        for rq in kept {
+            let _ = rq.respond(Response::from_string("late"));
+        }
         served
     });
     // let the pool's workers go idle first (the defect needs idle workers and a burst)
     std::thread::sleep(Duration::from_millis(30));
+    let mut slow: Vec<TcpStream> = vec![];
+    for k in 0..held {
+        let mut c = TcpStream::connect(ip).unwrap();
+        let mut m = match k % 3 {
+            0 => b"POST /slow HTTP/1.1\r\nHost: x\r\nConnection: close\r\nContent-Length: 4000\r\n\r\n".to_vec(),
+            1 => b"POST /slow HTTP/1.0\r\nContent-Length: 4000\r\n\r\n".to_vec(),
+            _ => b"POST /slow HTTP/1.1\r\nHost: x\r\nConnection: close\r\nTransfer-Encoding: chunked\r\n\r\n5\r\nhello\r\n".to_vec(),
+        };
+        if k % 3 != 2 {
+            m.extend(std::iter::repeat(b'u').take(4000));
+        }
+        c.write_all(&m).unwrap();
+        slow.push(c);
+    }
+    if held > 0 {
+        std::thread::sleep(Duration::from_millis(60));
+    }
     let mut conns: Vec<TcpStream> = (0..n).map(|_| TcpStream::connect(ip).unwrap()).collect();
     for c in conns.iter_mut() {
         c.write_all(b"GET /burst HTTP/1.1\r\nHost: x\r\n\r\n").unwrap();
@@ -128,8 +187,11 @@ pub fn burst_case(id: usize, n: usize) -> String {
         }
     }
     drop(conns);
+    // the held uploads end first: answering a request drains its body, which for a stalled chunked
+    // body means waiting for the client
+    drop(slow);
     let served = app.join().unwrap_or(0);
-    format!("srv id={} kind=burst n={} answered_all={} got={} served={}", id, n, if ok == n { 1 } else { 0 }, ok, served)
+    format!("srv id={} kind=burst n={} held={} answered_all={} got={} served={}", id, n, held, if ok == n { 1 } else { 0 }, ok, served)
 }
 
 /// bursts of short connections, then idleness: the thread count must return to its baseline
